@@ -8,12 +8,15 @@ m = json.load(open("MANIFEST.json"))
 checks = {c["property_id"]: c for c in m["checks"]}
 want = [a.upper() for a in sys.argv[1:]]
 hold = set(open("manifest/HOLD").read().split()) if os.path.exists("manifest/HOLD") else set()
+ready = set(open("manifest/READY").read().split())   # only properties the maintainer has seen pass are claimed
 for f in sorted(glob.glob("manifest/C*.json")):
     c = json.load(open(f))
     pid = c["property_id"]
     if want and pid not in want: continue
     checks[pid] = c
 for h in hold: checks.pop(h, None)
+for k in list(checks):
+    if k not in ready: checks.pop(k)
 m["checks"] = [checks[k] for k in sorted(checks)]
 claimed = sorted(checks)
 for e in m.get("engines", []):
